@@ -11,6 +11,7 @@ class Handler:
         self.fn = fn
         self.name = fn.name
         self.traverse_all = False       # self.generic_visit(node)
+        self.traverse_all_guard = None
         self.traverse_fields = set()    # self.visit(node.f) / loops over node.f
         self.delegates = []             # self.visit_X(node)
         self.helper_calls = []          # self.helper(args...)  (non-visit methods of the class)
@@ -27,7 +28,11 @@ class Handler:
         for n in walk_local(self.fn):
             if isinstance(n, ast.Call) and isinstance(n.func, ast.Attribute) and isinstance(n.func.value, ast.Name) and n.func.value.id == "self":
                 if n.func.attr == "generic_visit":
-                    self.traverse_all = True
+                    g = self._guards(n)
+                    if g:
+                        self.traverse_all_guard = g      # children are only walked under a condition: whatever is bound inside them is missed otherwise
+                    else:
+                        self.traverse_all = True
                 elif n.func.attr == "visit" and n.args:
                     a = n.args[0]
                     if isinstance(a, ast.Attribute) and isinstance(a.value, ast.Name):
